@@ -73,7 +73,9 @@ func checkPair(r *fw.R, pd, qd []float64, delta, eta float64, curveN int, viaPat
 // entry points: 0 = Path.op(Path); 1 = Paths of single contours (Split) on both sides;
 // 2 = Paths{p}.op(Paths{q}) with the whole multi-contour paths as single elements;
 // 3 = Paths{p}.op(q.Split()); 4 = p.Split().op(Paths{q})
-var entryNames = []string{"Path.op(Path)", "p.Split().op(q.Split())", "Paths{p}.op(Paths{q})", "Paths{p}.op(q.Split())", "p.Split().op(Paths{q})"}
+// 5, 6 = lists that hold an empty path as well (what an earlier And of disjoint shapes returns), first or last
+var entryNames = []string{"Path.op(Path)", "p.Split().op(q.Split())", "Paths{p}.op(Paths{q})", "Paths{p}.op(q.Split())", "p.Split().op(Paths{q})",
+	"Paths{empty, p}.op(Paths{empty, q})", "Paths{p, empty}.op(Paths{q, empty})"}
 
 func checkPairMode(r *fw.R, pd, qd []float64, delta, eta float64, curveN int, mode int) {
 	P := oracle.DenseData(pd, curveN)
@@ -128,6 +130,10 @@ func checkPairMode(r *fw.R, pd, qd []float64, delta, eta float64, curveN int, mo
 			res = applyPaths(op, canvas.Paths{cv.Path(pd)}, cv.Path(qd).Split())
 		case 4:
 			res = applyPaths(op, cv.Path(pd).Split(), canvas.Paths{cv.Path(qd)})
+		case 5:
+			res = applyPaths(op, canvas.Paths{&canvas.Path{}, cv.Path(pd)}, canvas.Paths{&canvas.Path{}, cv.Path(qd)})
+		case 6:
+			res = applyPaths(op, canvas.Paths{cv.Path(pd), &canvas.Path{}}, canvas.Paths{cv.Path(qd), &canvas.Path{}})
 		default:
 			res = apply(op, cv.Path(pd), cv.Path(qd))
 		}
@@ -482,7 +488,7 @@ func entryFamily() fw.Family {
 	n := int64(len(two))
 	modes := int64(len(entryNames))
 	return fw.Family{
-		Name: fmt.Sprintf("entry points: %d two-contour operands mixing flat and curved contours, P x Q x {Path.op, Paths of single contours, Paths with multi-contour elements on either side}", n), N: n * n * modes,
+		Name: fmt.Sprintf("entry points: %d two-contour operands mixing flat and curved contours, P x Q x {Path.op, Paths of single contours, Paths with multi-contour elements on either side, Paths with an empty member first or last}", n), N: n * n * modes,
 		Check: func(i int64, r *fw.R) {
 			m := int(i % modes)
 			k := i / modes
